@@ -419,9 +419,16 @@ func (p *partition) Subscribe(ctx context.Context, req *client.SubscribeRequest)
 	}
 
 	if stopOffset != waitForNewMessages && !req.Reverse && stopOffset < startOffset {
-		return nil, status.New(
-			codes.InvalidArgument, fmt.Sprintf("Stop offset is before start offset: %d < %d",
-				stopOffset, startOffset))
+		if req.StopPosition != client.StopPosition_STOP_ON_CANCEL {
+			return nil, status.New(
+				codes.InvalidArgument, fmt.Sprintf("Stop offset is before start offset: %d < %d",
+					stopOffset, startOffset))
+		}
+		// The stop offset is the end of a readonly partition and the start
+		// offset is past it, so there is nothing to read. The reader ends
+		// the subscription with the readonly error as it does on an empty
+		// partition.
+		stopOffset = waitForNewMessages
 	}
 	// A reverse subscription reads from the start offset down to the stop
 	// offset.
